@@ -68,7 +68,10 @@
 (* as polynomials in L (integer coefficients, degree <= 3, every           *)
 (* coefficient below 10^4 in absolute value), whose sign at L = 10^5 is    *)
 (* the sign of the highest non-zero coefficient: exact, and every number   *)
-(* stays small.  Hull clauses as above except the separate extreme-point   *)
+(* stays small.  An input counts as outside a face plane only when its     *)
+(* distance exceeds the tolerance granted to arithmetic in doubles at that  *)
+(* scale (WBeyond: about 10^-9 of the extent = 10^-4 of a lattice step).   *)
+(* Hull clauses as above except the separate extreme-point                 *)
 (* clause (for a closed convex surface through input points that contains  *)
 (* every input it is implied).                                             *)
 (*                                                                         *)
@@ -206,6 +209,23 @@ WDet3(u, v, w) == PAdd(PSub(PMul(u[1], PSub(PMul(v[2], w[3]), PMul(v[3], w[2])))
                        PMul(u[3], PSub(PMul(v[1], w[2]), PMul(v[2], w[1]))))
 WVol(a, b, c, d) == WDet3(WSub(b, a), WSub(c, a), WSub(d, a))
 WSide(a, b, c, d) == PSign(WVol(a, b, c, d))        \* as Vol above: > 0 iff d on the side the normal points to
+PDeg(p) == IF p[4] # 0 THEN 3 ELSE IF p[3] # 0 THEN 2 ELSE IF p[2] # 0 THEN 1 ELSE IF p[1] # 0 THEN 0 ELSE -1
+WCross(u, v) == <<PSub(PMul(u[2], v[3]), PMul(u[3], v[2])), PSub(PMul(u[3], v[1]), PMul(u[1], v[3])),
+                  PSub(PMul(u[1], v[2]), PMul(u[2], v[1]))>>
+\* d lies beyond the plane of (a, b, c) by more than the tolerance granted to an implementation that
+\* computes in doubles: about 10^-9 of the extent L, i.e. 10^-4 of a lattice step.  The distance is
+\* det / |normal| ~ (a_k / |n_j|) L^(k - j) with a_k, n_j the leading coefficients (degrees k, j):
+\*   k >= j       at least about 10^-2 of a lattice step: beyond
+\*   k = j - 1    (a_k / |n_j|) 10^-5: beyond iff a_k^2 > 100 |n_j|^2   (distance > 10^-4)
+\*   k <= j - 2   below 10^-6: within tolerance
+Coef(p, k) == IF k < 0 THEN 0 ELSE p[k + 1]
+WBeyond(a, b, c, d) ==
+    LET det == WVol(a, b, c, d)
+        n == WCross(WSub(b, a), WSub(c, a))
+        j == Max2(Max2(PDeg(n[1]), PDeg(n[2])), PDeg(n[3]))
+        k == PDeg(det)
+        nj2 == Coef(n[1], j) * Coef(n[1], j) + Coef(n[2], j) * Coef(n[2], j) + Coef(n[3], j) * Coef(n[3], j)
+    IN PSign(det) > 0 /\ (k >= j \/ (k = j - 1 /\ Coef(det, k) * Coef(det, k) > 100 * nj2))
 WSpans3(P) == \E a \in 1..Len(P) : \E b \in (a+1)..Len(P) : \E c \in (b+1)..Len(P) : \E d \in (c+1)..Len(P) :
                   WSide(P[a], P[b], P[c], P[d]) # 0
 WideHullClause(P, o) ==
@@ -215,7 +235,7 @@ WideHullClause(P, o) ==
         E == Edges(F)
         S == EdgesSorted(F)
         side(f, k) == WSide(V[F[f][1] + 1], V[F[f][2] + 1], V[F[f][3] + 1], P[k])
-        pos(f) == {k \in 1..Len(P) : side(f, k) > 0}
+        pos(f) == {k \in 1..Len(P) : WBeyond(V[F[f][1] + 1], V[F[f][2] + 1], V[F[f][3] + 1], P[k])}
         neg(f) == {k \in 1..Len(P) : side(f, k) < 0}
     IN
     IF Len(F) = 0 \/ nV = 0 THEN "hull_is_empty"
